@@ -101,6 +101,16 @@ type TCPLike interface {
 	net.Conn
 	SetLinger(sec int) error
 	File() (*os.File, error)
+	// the other TCP-specific calls of *net.TCPConn (socket options, half-close): code under test
+	// that starts using one of them still compiles against the seam, and simulated connections can
+	// fail them like a socket does
+	SetKeepAlive(keepalive bool) error
+	SetKeepAlivePeriod(d time.Duration) error
+	SetNoDelay(noDelay bool) error
+	SetReadBuffer(bytes int) error
+	SetWriteBuffer(bytes int) error
+	CloseRead() error
+	CloseWrite() error
 }
 
 // AsTCPConn replaces `c.(*net.TCPConn)` in rewritten sources.
